@@ -994,7 +994,7 @@ REPAIRED = {"relative-entry-underflow", "lsp-entry-not-seen"}
 
 
 def listed(chk, fid):
-    return fid not in REPAIRED and listed(chk, fid)
+    return fid not in REPAIRED and any(f["id"] == fid and f.get("status") == "known" for f in chk.findings)
 
 
 def load_findings(chk):
